@@ -160,18 +160,25 @@ def case_build(ctx, p):
     if any(abs((x / (math.pi / 2)) - round(x / (math.pi / 2))) > 1e-6 for x in a):
         mon.nontriv("build", a, p["rod"])
     for mod, m in ((ctx.T, "tools"), (ctx.L, "laue")):
-        mod.euler_to_u(*p["in_range"])                     # CHECKS on, inside [0, 2pi]
+        mod.euler_to_u(*p["in_range"])                     # inside [0, 2pi]: accepted whatever the switch says
+        was = ctx.CHECKS.activated
         ctx.CHECKS.activated = False                       # "for all real arguments"
         try:
             mod.euler_to_u(*a)
         finally:
-            ctx.CHECKS.activated = True
+            ctx.CHECKS.activated = bool(was)
         mod.rod_to_u(p["rod"])
         mod.rod_to_u(gen.as_form(p["rod"], 1 + int(abs(p["rod"][0]) * 1e9) % 2))
         irod = [int(round(x * 3)) for x in np.tanh(np.asarray(p["rod"]) * 1e3)] if abs(p["w_deg"]) < 360 else [1, -2, 3]
         for form in range(4):                      # whole-number vectors as list / tuple / float array / integer array
             mod.rod_to_u(gen.as_form(irod, form))
         mod.form_omega_mat(a[0])
+        if abs(p["w_deg"]) < 180:
+            ctx.probe_alias(mod.form_omega_mat_general, a[0], a[1], a[2])
+            ctx.probe_alias(mod.detect_tilt, a[0], a[1], a[2])
+            ctx.probe_alias(mod.quart_to_omega, p["w_deg"], a[1], a[2])
+            ctx.probe_alias(mod.rod_to_u, p["rod"])
+            ctx.probe_alias(mod.euler_to_u, *p["in_range"])
         mod.form_omega_mat_general(a[0], a[1], a[2])
         mod.quart_to_omega(p["w_deg"], a[1], a[2])
         mod.quart_to_omega(math.degrees(a[0]), p["in_range"][1] - math.pi, p["in_range"][2] - math.pi)
